@@ -642,8 +642,8 @@ class SymCtx:
                         fn(c, **self.unit_info['config'])
                     except PathAbort:
                         pass
-                    except Exception:
-                        pass
+                    except Exception as ex:
+                        c.note_exception(ex)
                     if c.failures:
                         out = _json.dumps({'inputs': c.inputs, 'check': c.failures[0].name}).encode()
                         break
@@ -892,6 +892,29 @@ class ConcreteCtx:
             self.passed += 1
         else:
             self.failures.append(ReplayFailure(name, info))
+
+    def note_exception(self, exc) -> bool:
+        """an exception that escaped the harness on a NATIVE run.  When it was raised by the package's own code (innermost frame in
+        the package) and is one of the package's exception classes or a value-level error (ValueError / ArithmeticError /
+        IndexError), the operation the harness performed on valid inputs failed where it must give a result: recorded as the
+        failing check 'operation_raised'.  AttributeError / TypeError / NameError (what a harness fake or a renamed private
+        name produces) and anything raised in harness code stay harness errors."""
+        import traceback as _tb
+        tb = _tb.extract_tb(exc.__traceback__)
+        if not tb:
+            return False
+        import os as _os
+        pkg = _os.path.join(_os.path.realpath(_os.environ.get('PYBC_REPO', '/repo')), 'py_ballisticcalc') + _os.sep
+        inner = _os.path.realpath(tb[-1].filename)
+        mod = type(exc).__module__ or ''
+        own = mod.startswith('py_ballisticcalc')
+        if not inner.startswith(pkg):
+            return False
+        if not (own or isinstance(exc, (ValueError, ArithmeticError, IndexError))):
+            return False
+        self.failures.append(ReplayFailure('operation_raised', {'exception': type(exc).__name__, 'message': str(exc)[:200],
+                                                                'at': f'{tb[-1].filename}:{tb[-1].lineno}'}))
+        return True
 
     def check_eq(self, name, a, b, rel=0.0, abs=0.0, info=None, tight=False):
         if isinstance(a, (int, float)) and isinstance(b, (int, float)):
